@@ -28,6 +28,10 @@ pub fn exec(case: &Value) -> Vec<Value> {
         "byte" => WindowConfig::Bytes(max, ctx, g),
         _ => WindowConfig::Full(g),
     };
+    // the text lives in a buffer that held another text of the same byte length before (see refill_with)
+    let s0 = s;
+    let mut s = String::with_capacity(s0.len() + 8);
+    refill_with(&mut s, &s0, |d| { let _ = guard(|| windows(d, &cfg).map(|w| w.len())); });
     let mut cp = Cp::new();
     let v = cp.view(&s, g);
     let (st, res, wins) = match guard(|| {
